@@ -27,7 +27,7 @@ ASSUMPTIONS = ['listing column layout: "[ (n)] line/ address : code ... source",
                'NoICE and Atmel debug formats are produced (crash/consistency) but not decoded']
 MANIFEST = dict(
     category='exploration', design_ref='DESIGN.md §4 C19',
-    technique='offline checker joining listing / MAP / share file with the recorded emission trace (hook H3) and final symbol dump (hook H1) of the same execution',
+    technique='offline checker joining listing / MAP / share file with the recorded emission trace (hook H3) and final symbol dump (hook H1) of the same execution and, for generated programs, with the physical source lines',
     text='Held on the executions of this run: every code-bearing listing group showed the traced address (load + phase) and bytes in the requested radix, every integer symbol in the '
          'listing symbol table, the MAP symbol section and the share file carried its final value, and every MAP line:address entry named a traced chunk start.',
     note='Trusts the hook traces as neutral witness (C04 ties them to the code file). Float/string symbol values and the NoICE/Atmel line records are not decoded.')
